@@ -225,6 +225,19 @@ func newWorldWithState(b *runner.Batch, n int, set world.Set, containers int, sn
 					w.Invoke(A, w.H("netmap"), "addPeerIR", nblob(pub, 9))
 				}
 			}
+			// a history that was made longer shortly before the upgrade: the ring then holds empty slots between the
+			// newest maps and the moved older ones (seeded change C16-9: a migration loop that stops at the first empty slot)
+			if (len(snapCount) == 0 || snapCount[0] == 0) && ticks >= c && r.IntN(2) == 0 {
+				if err := ok(w.Invoke(A, w.H("netmap"), "updateSnapshotCount", c+int64(3+r.IntN(4))), "updateSnapshotCount (grow)"); err != nil {
+					return err
+				}
+				for ep := ticks + 1; ep <= ticks+int64(r.IntN(3)); ep++ {
+					if err := ok(w.Invoke(A, w.H("netmap"), "newEpoch", ep), "tick"); err != nil {
+						return err
+					}
+				}
+				b.Hit("netmap-history-grown-shortly-before-the-upgrade")
+			}
 			return ok(w.Invoke(A, w.H("netmap"), "setConfig", []byte{1}, []byte("MaxObjectSize"), []byte{0, 0, 1}), "setConfig")
 		},
 		func() error {
